@@ -109,6 +109,12 @@ def _num_eq(x, y, tol=1e-9):
 
 class Executor(object):
     def __init__(self, init):
+        # init is a descriptor, or (descriptor, "i"|"f") to build receiver, fresh objects and move vectors from
+        # Python ints wherever the exact value is integral (the documentation's examples use ints)
+        self.ct = float
+        if isinstance(init[0], tuple):
+            self.ct = {"i": int, "f": float}[init[1]]
+            init = init[0]
         self.model = init
         self.kind = init[0]
         self.cur = None
@@ -125,7 +131,7 @@ class Executor(object):
         return v
 
     def fresh(self):
-        return B.build(self.model)
+        return B.build(self.model, self.ct)
 
     def start(self):
         self.cur = self.fresh()
@@ -144,7 +150,7 @@ class Executor(object):
         if name == "move":
             vi, follow = step[1], step[2]
             v = VECS[vi % len(VECS)]
-            self.ret = self.guard("move", lambda: self.cur.move(B.vec(v)))
+            self.ret = self.guard("move", lambda: self.cur.move(B.vec(v, self.ct)))
             self.model = X.translate(self.model, v)
             self.moves += 1
             self.invariant("after move")
@@ -157,8 +163,8 @@ class Executor(object):
             self.invariant("after deepcopy")
         elif name == "back":
             v = VECS[step[1] % len(VECS)]
-            self.guard("move", lambda: self.cur.move(B.vec(v)))
-            self.ret = self.guard("move back", lambda: self.cur.move(B.vec(X.mul(F(-1), v))))
+            self.guard("move", lambda: self.cur.move(B.vec(v, self.ct)))
+            self.ret = self.guard("move back", lambda: self.cur.move(B.vec(X.mul(F(-1), v), self.ct)))
             self.moves += 2
             self.invariant("after move by v and -v")
         elif name == "query":
@@ -294,8 +300,15 @@ def run_history(case):
     return ex
 
 
+def _desc(init):
+    return init[0] if isinstance(init[0], tuple) else init
+
+
 def account(case, ctx):
     _h, init, steps = case
+    if isinstance(init[0], tuple):
+        ctx.cls("ctype:" + init[1])
+    init = _desc(init)
     moves = 0
     q_after = 0
     steps = [(s[0].rstrip("23"),) + tuple(s[1:]) for s in steps]
@@ -327,7 +340,7 @@ def check(case, ctx):
 def admit(case, fail):
     """every queried pair along the history must be inside the margin domain"""
     _h, init, steps = case
-    model = init
+    model = _desc(init)
     for s in steps:
         s = (s[0].rstrip("23"),) + tuple(s[1:])
         if s[0] == "move":
@@ -352,9 +365,9 @@ def machine_for(kind):
 
         prop = sys.modules[__name__]
         if kind in ("G", "K"):
-            init = GB.body(kind)
+            init = st.tuples(GB.body(kind), st.sampled_from(("f", "f", "i")))
         else:
-            init = gen.free_flat(kind)
+            init = st.tuples(gen.free_flat(kind), st.sampled_from(("f", "f", "i")))
         qargs = (
             st.sampled_from(("P", "P", "L", "H", "S", "S", "PL", "PL", "G", "K")),
             st.integers(0, 30), st.integers(0, 30), st.integers(0, 30), st.integers(0, 30),
